@@ -14,7 +14,7 @@ if [ "$(cat "$ISO/vc.head" 2>/dev/null)" != "$vh" ]; then
   sed -i "s#=> /repo#=> $ISO/repo#" "$ISO/vc/harness/go.mod"
   echo "$vh" > "$ISO/vc.head"
 fi
-( cd "$ISO/repo" && git apply "$P" ) || { echo "patch does not apply: $P"; exit 2; }
+( cd "$ISO/repo" && { git apply "$P" 2>/dev/null || patch -p1 -s --fuzz=3 --no-backup-if-mismatch < "$P"; } ) || { echo "patch does not apply: $P"; ( cd "$ISO/repo" && git checkout -q -- . && git clean -fdq ); exit 2; }
 for c in "$@"; do
   out=$(cd "$ISO/vc" && VERIF_NO_EVIDENCE=1 ./check "$c" "${TIER:-quick}" 2>&1); rc=$?
   if [ $rc -eq 1 ] && echo "$out" | grep -q "^VIOLATION property=$c"; then
